@@ -93,7 +93,94 @@ pub fn run_case(line: &str) -> String {
 }
 
 pub fn special(name: &str, args: &[String]) -> bool {
-    if name == "c14-race" { race(args); true } else { false }
+    if name == "c14-race" { race(args); true } else if name == "c14-contend" { contend(args); true } else { false }
+}
+
+/// c14-contend <readers> <calls per reader>: the list answers of the register while writers are inside it.
+/// A parent with 5 children is registered. Part 1 (deterministic): a thread holds the register's WRITE lock
+/// (Register::verif_with_write_lock - what update_info does for the length of its body) while another asks
+/// ids_for_parent: the answer must not come while the lock is held (25 ms), and must be all 5 children once it
+/// is released. Part 2 (soak): writer threads keep calling update_info on ids outside the family while reader
+/// threads ask ids_for_parent / get / find_existing_peer: every answer is the complete one.
+/// Prints "ok <answers checked>" or "incomplete ...".
+pub fn contend(args: &[String]) {
+    use std::sync::atomic::{AtomicBool, Ordering::SeqCst};
+    use std::sync::{mpsc, Arc};
+    use std::time::Duration;
+    let readers: usize = args.first().map(|s| s.parse().unwrap()).unwrap_or(8);
+    let n: usize = args.get(1).map(|s| s.parse().unwrap()).unwrap_or(20000);
+    let reg = Arc::new(new_register());
+    let unit = reg.verif_register();
+    let parent = reg.verif_register();
+    reg.verif_update_info(parent, IngressInfo::new().with_parent(unit).with_remote_addr(addr(1)));
+    let mut kids: Vec<u32> = (0..5u32).map(|k| {
+        let id = reg.verif_register();
+        reg.verif_update_info(id, IngressInfo::new().with_parent(parent).with_remote_addr(addr(10 + k)).with_remote_asn(inetnum::asn::Asn::from_u32(65000 + k)));
+        id
+    }).collect();
+    kids.sort();
+    // ids the writers work on: children of another parent
+    let other = reg.verif_register();
+    let strangers: Vec<u32> = (0..8).map(|_| reg.verif_register()).collect();
+    let complete = |mut l: Vec<u32>| { l.sort(); l == kids };
+
+    // part 1
+    let (locked_tx, locked_rx) = mpsc::channel::<()>();
+    let (release_tx, release_rx) = mpsc::channel::<()>();
+    let r = reg.clone();
+    let holder = std::thread::spawn(move || r.verif_with_write_lock(|| { let _ = locked_tx.send(()); let _ = release_rx.recv(); }));
+    locked_rx.recv().unwrap();
+    let (ans_tx, ans_rx) = mpsc::channel::<Vec<u32>>();
+    let r = reg.clone();
+    let asker = std::thread::spawn(move || { let _ = ans_tx.send(r.ids_for_parent(parent)); });
+    let early = ans_rx.recv_timeout(Duration::from_millis(25)).ok();
+    release_tx.send(()).unwrap();
+    holder.join().unwrap();
+    let late = if early.is_none() { ans_rx.recv_timeout(Duration::from_secs(5)).ok() } else { None };
+    asker.join().unwrap();
+    if let Some(a) = early {
+        println!("incomplete ids_for_parent answered {:?} (children: {:?}) while a writer held the register's lock", a, kids);
+        return;
+    }
+    match late {
+        Some(a) if complete(a.clone()) => {}
+        other => { println!("incomplete ids_for_parent after the writer left: {:?} (children: {:?})", other, kids); return; }
+    }
+
+    // part 2
+    let stop = Arc::new(AtomicBool::new(false));
+    let writers: Vec<_> = (0..4usize).map(|w| {
+        let (r, stop, strangers) = (reg.clone(), stop.clone(), strangers.clone());
+        std::thread::spawn(move || {
+            let mut k = 0usize;
+            while !stop.load(SeqCst) {
+                let id = strangers[(w + k) % strangers.len()];
+                r.verif_update_info(id, IngressInfo::new().with_parent(other).with_remote_addr(addr(100 + (k % 50) as u32)).with_name(format!("w{w}-{k}")));
+                k += 1;
+            }
+            k
+        })
+    }).collect();
+    let hs: Vec<_> = (0..readers).map(|_| {
+        let (r, kids) = (reg.clone(), kids.clone());
+        std::thread::spawn(move || -> Result<usize, String> {
+            for i in 0..n {
+                let mut a = r.ids_for_parent(parent);
+                a.sort();
+                if a != kids { return Err(format!("ids_for_parent answered {:?} (children: {:?}) while other ids were being updated", a, kids)); }
+                let c = kids[i % kids.len()];
+                match r.get(c) { Some(info) if info.parent_ingress == Some(parent) => {}, x => return Err(format!("get({c}) answered {:?}", x.map(|i| i.parent_ingress))) }
+            }
+            Ok(2 * n)
+        })
+    }).collect();
+    let res: Vec<Result<usize, String>> = hs.into_iter().map(|h| h.join().unwrap()).collect();
+    stop.store(true, SeqCst);
+    let writes: usize = writers.into_iter().map(|h| h.join().unwrap()).sum();
+    match res.iter().find_map(|r| r.as_ref().err()) {
+        Some(e) => println!("incomplete {e}"),
+        None => println!("ok {} answers, {} concurrent updates", res.iter().map(|r| *r.as_ref().unwrap()).sum::<usize>() + 1, writes),
+    }
 }
 
 /// c14-race <threads> <per-thread>: concurrent register() calls; prints
